@@ -38,8 +38,21 @@ SparseObj(ver, j) ==
      IF m \in Optional(ver) /\ Rnd3(j + 1000, Pos(ver, m), 2) % 2 = 0
      THEN Undef(ver) ELSE RndObj(ver, j)[m]]
 
+(* every metric at a value of maximal (minimal) spelled length: the longest and shortest    *)
+(* vectors the version can write (first = TRUE takes the first such value in the listed     *)
+(* order, else the last one)                                                               *)
+ExtremeObj(ver, long, first) ==
+  [m \in MetricSet(ver) |->
+     LET s == ValueSeq(ver)[m]
+         better(a, b) == IF long THEN Len(SB[a]) > Len(SB[b]) ELSE Len(SB[a]) < Len(SB[b])
+         best == {i \in 1..Len(s) : \A j \in 1..Len(s) : ~better(s[j], s[i])}
+         pick == IF first THEN CHOOSE i \in best : \A j \in best : i <= j
+                 ELSE CHOOSE i \in best : \A j \in best : i >= j
+     IN  s[pick]]
+
 BaseObjects(ver) ==
   {KthObj(ver, k) : k \in 1..6} \cup {BaseOnlyObj(ver, k) : k \in 1..4}
+  \cup {ExtremeObj(ver, l, f) : l \in BOOLEAN, f \in BOOLEAN}
   \cup {RndObj(ver, j) : j \in 1..K} \cup {SparseObj(ver, j) : j \in 1..K}
 
 (* star: every single (metric, value) deviation *)
